@@ -82,8 +82,10 @@ Definition question_matches (req : question) (resp : list question) : bool :=
   | _ => false
   end.
 
-(* what Exchange looks at in a received message *)
-Record wmsg := mk_wmsg { w_id : N; w_qs : list question }.
+(* a received message as far as Exchange is concerned: transaction ID, response code, question
+   section.  The response code is carried to make explicit that the guard does not depend on it:
+   an error reply (NXDOMAIN, REFUSED, FORMERR ...) is held to the same ID and question rule. *)
+Record wmsg := mk_wmsg { w_id : N; w_rcode : N; w_qs : list question }.
 
 (* one read from the connection.  [DgZeros n]: n zero octets (n <= 12): fewer than
    headerSize is dns.ErrShortRead, exactly a header is the empty message with ID 0;
@@ -104,7 +106,7 @@ Inductive xresult :=
 Inductive readres := RdShort | RdUnpack | RdOk (m : wmsg).
 Definition read_msg (d : datagram) : readres :=
   match d with
-  | DgZeros n => if n <? header_size then RdShort else if n =? 12 then RdOk (mk_wmsg 0 []) else RdUnpack
+  | DgZeros n => if n <? header_size then RdShort else if n =? 12 then RdOk (mk_wmsg 0 0 []) else RdUnpack
   | DgGarbage => RdUnpack
   | DgMsg m => RdOk m
   end.
